@@ -29,12 +29,21 @@ import zoo_c08
 from props import c07 as P7
 
 PROPERTY = "C17"
-LEAN_MODULE = "PyOak.Props.C17Pattern"
+LEAN_MODULE = "PyOak.Props.C17All"
 THEOREMS = ["PyOak.C17." + t for t in [
     "compile_total", "accepts_wellformed", "pat_accept",
     "parse_render", "pattern_accepts_rendering", "pattern_ws_irrelevant", "pat_parse", "pat_size", "scanStr_body",
     "lexCName_tok", "lexKey_tok", "parseClassSpec_cls",
     "xpath_accepts_rendering", "xpath_relative", "xpath_ws_irrelevant", "xlex_render", "parseSteps_path", "parseStepBody_body", "xwalk_some",
+]]
+# Props/C17Reject.lean (after AUDIT.md): the REJECTION half — accepted <=> well-formed <=> the four clauses of the
+# statement; the cause of each interpreter error; no "Unexpected error" for any syntax tree / any text; every
+# rendering of an ill-formed derivation is rejected with the definition error; an accepted xpath is usable
+THEOREMS += ["PyOak.C17." + t for t in [
+    "accepts_iff_wf", "compilePat_ok_iff_wf", "rejects_illformed", "compile_err_cause", "compile_no_runtime",
+    "wf_iff_clauses", "accepts_iff_clauses", "pattern_rendering_accepted_iff", "pattern_rejects_illformed",
+    "compilePattern_no_runtime", "compilePattern_trichotomy", "parseXPath_nonempty", "xwalk_no_indexError",
+    "parseXPath_none_cause", "xpath_unknown_class_rejected",
 ]]
 PARTIAL = ["totality of the *Python* entry points (no other exception escapes, validate_pattern / from_pattern / "
            "MultiPatternMatcher agree, a second compilation behaves the same) is a fact about Python exception flow and "
